@@ -261,6 +261,7 @@ def run(ctx):
             ds = [v for v, k, st in bdefs.get(it.id, []) if k == 'assign']
             return len(ds) == 1 and (is_reversed(ds[0]) or (isinstance(ds[0], ast.ListComp) and is_reversed(ds[0].generators[0].iter)))
         return False
+    RU = repo.fid_of(repo.func(CFGM + ':recursive_update'))     # wherever the function lives (it may be imported back)
     mloops = [l for l in loops if over_mro(l.iter)]
     if not mloops:
         raise AnalysisError('build_config: loop over the MRO not found')
@@ -271,7 +272,7 @@ def run(ctx):
         if isinstance(e, ast.Name):
             return any(_section_expr(v) for v, k, st in bdefs.get(e.id, []) if k == 'assign' and not isinstance(v, ast.Name))
         return False
-    disk_ups = [c for c in calls_in(bc, nested=False) if ('func', CFGM + ':recursive_update') in cg.resolve(c.func, bc) and len(c.args) > 1 and
+    disk_ups = [c for c in calls_in(bc, nested=False) if ('func', RU) in cg.resolve(c.func, bc) and len(c.args) > 1 and
                 _section_expr(c.args[1])]
     if not disk_ups:
         # layered with something else than recursive_update?  dict.update / {**a, **b} are SHALLOW: a section's nested Ignore mapping replaces the inherited one
@@ -305,7 +306,7 @@ def run(ctx):
     ok = is_reversed(ml.iter)
     ctx.inst('R19.3', CFGM + ':build_config', repo.norm(ml.iter), ok, 'least specific class first, most specific last (wins)' if ok else
              'the MRO is not layered in reverse: the least specific section wins', ml)
-    ups = [c for c in calls_in(ml) if ('func', CFGM + ':recursive_update') in cg.resolve(c.func, bc)]
+    ups = [c for c in calls_in(ml) if ('func', RU) in cg.resolve(c.func, bc)]
     kinds = []
     _bdefs = local_defs(bc)
     for c in ups:
@@ -355,11 +356,11 @@ def run(ctx):
                  'the working directory loses its precedence when it is also a jupyter config directory', loads[0])
     dl = [l for l in loops if l not in mloops and any(isinstance(c, ast.Call) and last_attr(c) == '_load_config_files' for c in ast.walk(l.iter))]
     acc_names = {x.value.id for x in ast.walk(bc) if isinstance(x, ast.Subscript) and isinstance(x.value, ast.Name) and isinstance(x.slice, ast.Attribute) and x.slice.attr == '__name__'}
-    ok = len(dl) == 1 and any(('func', CFGM + ':recursive_update') in cg.resolve(c.func, bc) and dotted(c.args[0]) in acc_names for c in calls_in(dl[0]))
+    ok = len(dl) == 1 and any(('func', RU) in cg.resolve(c.func, bc) and dotted(c.args[0]) in acc_names for c in calls_in(dl[0]))
     ctx.inst('R19.3', CFGM + ':build_config', 'disk config = recursive_update over the files in yielded order', ok,
              'later files overwrite earlier ones key by key' if ok else 'file configs are not merged by recursive_update', dl[0] if dl else bc)
     ru = repo.func(CFGM + ':recursive_update')
-    rec = [c for c in calls_in(ru) if ('func', CFGM + ':recursive_update') in cg.resolve(c.func, ru)]
+    rec = [c for c in calls_in(ru) if ('func', RU) in cg.resolve(c.func, ru)]
     g = CFG(ru)
     ok = bool(rec) and any(isinstance(t, ast.Call) and dotted(t.func) == 'isinstance' and pol for c in rec for t, pol in
                            __import__('nbsa.cfg', fromlist=['cond_guards']).cond_guards(g, repo.stmt_of(c)))
